@@ -296,17 +296,12 @@ impl<'r> G<'r> {
             params.push(n.clone());
             inner.push(Var { name: n, ty: Ty::Any, assignable: true });
         }
-        // what may be captured: only locals of `main` (frame offset 0), see DESIGN section 9
+        // what may be captured: the locals in scope of whichever function creates the closure
+        // (until fix 58b28ea only the locals of `main` were captured correctly: the upvalue was
+        // registered by absolute stack index)
         let saved_capt = self.capturable.clone();
         if self.in_closure == 0 {
-            self.capturable = if self.cur == 0 && self.loop_depth == 0 {
-                scope.to_vec()
-            } else if self.cur == 0 {
-                // inside a loop body of main: locals of main are still at absolute positions
-                scope.to_vec()
-            } else {
-                vec![]
-            };
+            self.capturable = scope.to_vec();
         }
         self.in_closure += 1;
         let saved_leaf = self.in_leaf;
